@@ -260,6 +260,27 @@ def range_book(cfg, pattern):
                                 host, '=%s(%s%s)' % (func, prefix, rng), key,
                                 range_expect(vals, func), tags,
                                 len(vals) >= 2)
+                            if func == 'SUM' and di == 0 and \
+                                    (r2, c2) == (r1 + 1, c1 + 1):
+                                # the same reference followed / preceded /
+                                # guarded by an unqualified sibling: the
+                                # sibling still means the HOST sheet
+                                own = book.value(host, 'A', 1) or 0
+                                tot = sum(v for v in vals if v is not None)
+                                for form, text in (
+                                        ('then-unqualified',
+                                         '=SUM(%s%s)+A1' % (prefix, rng)),
+                                        ('after-unqualified',
+                                         '=A1+SUM(%s%s)' % (prefix, rng)),
+                                        ('in-if', '=IF(SUM(%s%s)>=0,A1,0)'
+                                         % (prefix, rng))):
+                                    # IF hands an empty cell on as it is
+                                    want = book.value(host, 'A', 1) \
+                                        if form == 'in-if' else tot + own
+                                    book.add_probe(
+                                        host, text, key + '/' + form,
+                                        lib.norm(want),
+                                        tags + ['sibling:unqualified'], True)
     return book
 
 
